@@ -159,6 +159,13 @@ pub fn generic_alphabet() -> Vec<Pres> {
 	a.push(Pres::Tuple(vec![Pres::I64(1), Pres::I64(2), Pres::I64(3)]));
 	a.push(Pres::Seq { len: None, elems: vec![Pres::U32(5), Pres::U32(6), Pres::U32(7)] });
 	a.push(Pres::TupleStruct("zz", vec![Pres::U32(1), Pres::U32(2), Pres::U32(3)]));
+	// u32 sequences of every length 0..=4 whose length is not announced (None) or announced as 3: a duration node
+	// must end with exactly three parts (a round-11 seeded change weakened the arity check made at `end`)
+	for k in 0usize..=4 {
+		for hint in [None, Some(3)] {
+			a.push(Pres::Seq { len: hint, elems: (0..k).map(|i| Pres::U32(5 + i as u32)).collect() });
+		}
+	}
 	// elements of every integer width, inside and outside the u8 / u32 ranges (sequences offered to
 	// bytes / fixed / duration nodes convert each element)
 	for x in [0x41i128, 255, 256, -1, 1 << 33] {
